@@ -102,6 +102,68 @@ Theorem C02_items_length_mismatch_not_normalized :
     norm_sequence_items current childn x ns field l (VList its) = Ok ns.
 Proof. exact (items_length_mismatch_not_normalized current). Qed.
 
+(* the purge steps.  Purging unknown fields keeps exactly the fields the schema defines, in their order, and the errors;
+   it is skipped when unknown fields are allowed (allow_unknown truthy: True or a rules set) or purge_unknown is off *)
+Theorem C02_purge_unknown_keeps_exactly_the_known_fields : forall ns rsch,
+  n_map (purge_unknown_step ns rsch) = filter (fun kv => assoc_mem (fst kv) rsch) (n_map ns) /\
+  n_errs (purge_unknown_step ns rsch) = n_errs ns /\
+  (forall kv, In kv (n_map (purge_unknown_step ns rsch)) <-> In kv (n_map ns) /\ assoc_mem (fst kv) rsch = true).
+Proof.
+  intros ns rsch. split; [reflexivity|split; [reflexivity|]].
+  intro kv. unfold purge_unknown_step. cbn [n_map]. apply filter_In.
+Qed.
+
+Theorem C02_purge_unknown_skipped_when_unknown_allowed : forall childn x rsch ns,
+  c_purge_unknown (x_cfg x) = false \/ truthy (c_allow_unknown (x_cfg x)) = true ->
+  run_step current childn x rsch "normalize_purge_unknown?self.purge_unknown and (not self.allow_unknown)" ns = Ok ns.
+Proof.
+  intros childn x rsch ns H. unfold run_step.
+  change (String.eqb "normalize_purge_unknown?self.purge_unknown and (not self.allow_unknown)" "normalize_rename_fields") with false.
+  change (String.eqb "normalize_purge_unknown?self.purge_unknown and (not self.allow_unknown)"
+                     "normalize_purge_unknown?self.purge_unknown and (not self.allow_unknown)") with true.
+  cbv iota. destruct H as [H|H]; rewrite H; [reflexivity|]. rewrite andb_false_r. reflexivity.
+Qed.
+
+(* purging readonly fields removes exactly the fields whose rules say readonly, keeps the order and the errors *)
+Theorem C02_purge_readonly_removes_exactly_the_readonly_fields : forall ns rsch ns',
+  purge_readonly_step ns rsch = Ok ns' ->
+  exists ro, readonly_fields rsch (n_map ns) = Ok ro /\ n_errs ns' = n_errs ns /\
+             n_map ns' = filter (fun kv => negb (key_in (fst kv) ro)) (n_map ns).
+Proof.
+  intros ns rsch ns' H. unfold purge_readonly_step in H.
+  destruct (readonly_fields rsch (n_map ns)) as [ro| |]; cbn [bind] in H; try discriminate.
+  injection H as <-. exists ro. repeat split.
+Qed.
+
+Theorem C02_readonly_fields_are_those_with_a_truthy_readonly_rule : forall rsch m ro,
+  readonly_fields rsch m = Ok ro ->
+  forall k, In k ro <->
+            In k (map fst m) /\ exists rs v, assoc_get k rsch = Some rs /\
+                                             rs_get_default "__normalize_purge_readonly" rs "readonly" (VBool false) = Ok v /\
+                                             truthy v = true.
+Proof.
+  intros rsch m. induction m as [|[k0 v0] m IH]; intros ro H k; cbn [readonly_fields] in H.
+  - injection H as <-. split; [intros []|intros [[] _]].
+  - destruct (assoc_get k0 rsch) as [rs|] eqn:Er.
+    + destruct (rs_get_default "__normalize_purge_readonly" rs "readonly" (VBool false)) as [w| |] eqn:Ew; cbn [bind] in H; try discriminate.
+      destruct (readonly_fields rsch m) as [r| |]; cbn [bind] in H; try discriminate.
+      injection H as <-. specialize (IH r eq_refl k). cbn [map fst In]. destruct (truthy w) eqn:Et.
+      * cbn [In]. rewrite IH. split.
+        -- intros [<-|[Hi Hx]]; [split; [left; reflexivity|exists rs, w; repeat split; assumption]|split; [right; exact Hi|exact Hx]].
+        -- intros [[<-|Hi] Hx]; [left; reflexivity|right; split; assumption].
+      * rewrite IH. split.
+        -- intros [Hi Hx]. split; [right; exact Hi|exact Hx].
+        -- intros [[<-|Hi] Hx]; [|split; assumption].
+           destruct Hx as [rs' [w' [H1 [H2 H3]]]]. rewrite Er in H1. injection H1 as <-. rewrite Ew in H2. injection H2 as <-.
+           rewrite Et in H3. discriminate.
+    + cbn [bind] in H. destruct (readonly_fields rsch m) as [r| |]; cbn [bind] in H; try discriminate.
+      injection H as <-. specialize (IH r eq_refl k). cbn [map fst In]. rewrite IH. split.
+      * intros [Hi Hx]. split; [right; exact Hi|exact Hx].
+      * intros [[<-|Hi] Hx]; [|split; assumption].
+        destruct Hx as [rs' [w' [H1 _]]]. rewrite Er in H1. discriminate.
+Qed.
+Print Assumptions C02_readonly_fields_are_those_with_a_truthy_readonly_rule.
+
 (* non-vacuity / worked instance: rename, default, coerce chain with a failing member, nested purge *)
 Example C02_example :
   let cfg := {| c_allow_unknown := VBool false; c_require_all := false; c_ignore_none := false; c_purge_unknown := true;
